@@ -267,7 +267,8 @@ PLAN = {
                 technique="TLA+ loan rule model; TLC enumerates (method, conflicting statement) cases; each rendered as a Rust program + conflict-free control and decided by rustc",
                 claim="The loan rule model (AnyVecBorrow.tla) states which statements are legal while a handle from each of 26 handle-producing "
                       "methods (erased and typed) holds a shared or exclusive loan: mutate / read / second exclusive / second shared / move / drop the "
-                      "source, escape its scope, consume a by-value handle twice; plus second-level loans (borrows obtained through a mutable typed "
+                      "source, escape its scope, consume a by-value handle twice; every ordered pair of handles alive at once; every mutating method "
+                      "(erased and typed) called through a shared reference / the shared typed view; plus second-level loans (borrows obtained through a mutable typed "
                       "view reused after a mutation through it, two simultaneous mutable paths, lazy clones outliving their source, items outliving "
                       "their iterator). TLC enumerates all cases; every case is compiled with its conflict-free control: the control must compile, a "
                       "must-reject program must fail with an ownership/borrow error, a legal one must compile.",
@@ -286,8 +287,9 @@ PLAN = {
                 technique="TLA+ rule model of the auto-trait / constructor / method surface; TLC enumerates all cases; rustc verdicts compared",
                 claim="The TLA+ rule model (AnyVecTraits.tla) derives from first principles which types may be Send/Sync and which constructors "
                       "and methods exist; TLC enumerates the whole space (8 constraint sets x 8 backends incl. four user backends that are !Send or "
-                      "!Sync in builder or Mem x element classes x 14 public vector/view/handle/iterator types x {Send, Sync}; every constructor x "
-                      "constraint set x element class; clone/reserve/shrink/with_capacity availability) and every case is decided by rustc against "
+                      "!Sync in builder or Mem x element classes x 16 public vector/view/handle/iterator types incl. the opaque typed drain / splice "
+                      "iterators x {Send, Sync}; every constructor x constraint set x element class; clone/reserve/shrink/with_capacity availability, "
+                      "erased and through the typed view) and every case is decided by rustc against "
                       "/repo's current tree: all Send/Sync queries in one compilation, one compile per must-compile / must-not-compile probe.",
                 rule="cases = all records of AnyVecTraits!Cases (TLC states); every case is one compiler query; distinct = distinct (type, trait, constraint set, backend, element class)",
                 note="The rule tables (which handle stands for which kind of reference) are transcribed from the public API by hand; rustc is trusted."),
@@ -296,7 +298,8 @@ PLAN = {
                       "zero-capacity Empty backend, every constraint class exercised by the configurations, repeated and interleaved with every "
                       "element-wise operation (the rebuilt vector is kept apart in the exploration so every operation is replayed on it): TLC "
                       "judges that nothing is destroyed or (de)allocated, that the parts and their clone report the true length, capacity, layout, "
-                      "type id and drop/clone functions, and that all further events match the contract.",
+                      "type id and drop/clone functions, and that all further events match the contract. On a relocating user backend with a stateful, "
+                      "logging builder the builder itself is followed: moved (never copied) through the round trip, dropped exactly once.",
                 rule="cases = all transitions of the raw-parts models; non-trivial = raw_roundtrip at depth >= 2 and every operation on a rebuilt vector"),
     "C04": dict(campaigns=c04, level="model_checking",
                 claim="Every state of the bounded model x a value of another runtime type (two types with identical size and alignment, one of a "
@@ -357,7 +360,8 @@ PLAN = {
                       "(element Drop, element Clone, replacement-iterator next), the case is re-run N times with the k-th invocation panicking; "
                       "TLC judges the state after the unwind against ruling A4 of the contract (everything visible alive, intact, once; no identity "
                       "destroyed twice; what disappeared is leaked), then a health probe (release outstanding handles, push, read, clear every "
-                      "vector, drop extracted values) and a full teardown are judged as ordinary events from the adopted state.",
+                      "vector, drop extracted values) and a full teardown are judged as ordinary events from the adopted state. In addition long "
+                      "random histories on large vectors run with a share of their steps faulted the same way; the history continues from the adopted state.",
                 rule="evaluations = events judged (fault-free events, faulted events, probe events); fault_runs = number of (transition, k) runs; "
                      "non-trivial = a transition that invoked user code at least once at depth >= 2; distinct = (action, config, profile)"),
     "C03": dict(campaigns=c03, level="model_checking",
